@@ -493,4 +493,60 @@ def prun : PState → List POp → Option PState
     | none => none
     | some (s', _) => prun s' ops
 
+/-! igris::pool histories -/
+
+inductive IOp where
+  | get
+  | put (c : Option Nat)
+  deriving Repr, DecidableEq
+
+structure IState where
+  pool : IPool
+  live : List Nat
+  deriving Repr, DecidableEq
+
+/-- `none` = `put` of a cell that is not allocated (outside the property) or
+an `assert` of `put` fired -/
+def istep (s : IState) : IOp → Option (IState × Option Nat)
+  | .get =>
+    match s.pool.get with
+    | (none, p) => some (⟨p, s.live⟩, none)
+    | (some c, p) => some (⟨p, c :: s.live⟩, some c)
+  | .put none =>
+    match s.pool.put none with
+    | some (p, _) => some (⟨p, s.live⟩, none)
+    | none => none
+  | .put (some c) =>
+    if s.live.contains c then
+      match s.pool.put (some c) with
+      | some (p, _) => some (⟨p, s.live.erase c⟩, none)
+      | none => none
+    else none
+
+def irun : IState → List IOp → Option IState
+  | s, [] => some s
+  | s, op :: ops =>
+    match istep s op with
+    | none => none
+    | some (s', _) => irun s' ops
+
+/-! static_object_pool histories -/
+
+inductive SOp where
+  | create
+  | destroy (c : Nat)
+  deriving Repr, DecidableEq
+
+/-- `none` = `destroy` of a pointer that does not hold an object (outside the property) -/
+def sstep (s : SOP) : SOp → Option (SOP × Option Nat)
+  | .create => let x := s.create; some (x.2, x.1)
+  | .destroy c => if s.objs.contains c then some (s.destroy c, none) else none
+
+def srun : SOP → List SOp → Option SOP
+  | s, [] => some s
+  | s, op :: ops =>
+    match sstep s op with
+    | none => none
+    | some (s', _) => srun s' ops
+
 end Igris.C10
